@@ -405,6 +405,18 @@ impl PosRef {
     pub fn exists(&self, l: &Ledger) -> bool {
         l.get(&self.addr).is_some()
     }
+    /// The same position with its range refreshed from the ledger (reposition / reset change the range).
+    pub fn at(&self, l: &Ledger) -> PosRef {
+        let mut p = self.clone();
+        if let Some(a) = l.get(&self.addr) {
+            if a.data.len() == decode::POSITION_LEN {
+                let st = decode::position(&a.data);
+                p.lower = st.tick_lower_index;
+                p.upper = st.tick_upper_index;
+            }
+        }
+        p
+    }
     pub fn ta_lower(&self) -> Pubkey {
         self.pool.tick_array(self.pool.array_start(self.lower))
     }
@@ -581,6 +593,48 @@ pub fn ix_increase_by_token_amounts(pos: &PosRef, w: &Wallet, max_a: u64, max_b:
                 token_max_b: max_b,
                 min_sqrt_price,
                 max_sqrt_price,
+            },
+            remaining_accounts_info: None,
+        }
+        .data(),
+    )
+}
+
+/// reposition_liquidity_v2 (Pinocchio only): withdraw everything from the current range, re-range, deposit `liquidity`.
+pub fn ix_reposition_v2(pos: &PosRef, w: &Wallet, funder: Pubkey, new_lower: i32, new_upper: i32, liquidity: u128, min_a: u64, min_b: u64, max_a: u64, max_b: u64) -> Instruction {
+    let p = &pos.pool;
+    ix(
+        wa::RepositionLiquidityV2 {
+            whirlpool: p.addr,
+            token_program_a: p.prog_a,
+            token_program_b: p.prog_b,
+            memo_program: MEMO,
+            position_authority: w.owner,
+            funder,
+            position: pos.addr,
+            position_token_account: pos.token_account,
+            token_mint_a: p.mint_a,
+            token_mint_b: p.mint_b,
+            token_owner_account_a: w.acct_a,
+            token_owner_account_b: w.acct_b,
+            token_vault_a: p.vault_a,
+            token_vault_b: p.vault_b,
+            existing_tick_array_lower: pos.ta_lower(),
+            existing_tick_array_upper: pos.ta_upper(),
+            new_tick_array_lower: p.tick_array(p.array_start(new_lower)),
+            new_tick_array_upper: p.tick_array(p.array_start(new_upper)),
+            system_program: system_program::ID,
+        }
+        .to_account_metas(None),
+        wi::RepositionLiquidityV2 {
+            new_tick_lower_index: new_lower,
+            new_tick_upper_index: new_upper,
+            method: whirlpool::instructions::RepositionLiquidityMethod::ByLiquidity {
+                new_liquidity_amount: liquidity,
+                existing_range_token_min_a: min_a,
+                existing_range_token_min_b: min_b,
+                new_range_token_max_a: max_a,
+                new_range_token_max_b: max_b,
             },
             remaining_accounts_info: None,
         }
